@@ -460,7 +460,8 @@ class PlayerPlaceholder(BasePlaceholder):
 
     def subscribe(self):
         """Subscribe to player changes."""
-        return self._machine.events.wait_for_any_event(["player_turn_ended", "player_turn_started"])
+        return self._machine.events.wait_for_any_event(["player_turn_ended", "player_turn_started",
+                                                        "mode_game_stopped"])
 
     def subscribe_attribute(self, item):
         """Subscribe player variable changes."""
@@ -503,7 +504,7 @@ class PlayersPlaceholder(BasePlaceholder):
 
     def subscribe(self):
         """Subscribe to player list changes."""
-        return self._machine.events.wait_for_any_event(["player_added", "game_ended"])
+        return self._machine.events.wait_for_any_event(["player_added", "game_ended", "mode_game_stopped"])
 
     def subscribe_attribute(self, item):
         """Subscribe player variable changes."""
@@ -623,6 +624,10 @@ class SettingsPlaceholder(BasePlaceholder):
         return self._machine.events.wait_for_event(
             'machine_var_{}'.format(self._machine.settings.get_setting_machine_var(item)))
 
+    def __getitem__(self, item):
+        """Array access."""
+        return self._machine.settings.get_setting_value(item)
+
     def __getattr__(self, item):
         """Attribute access."""
         return self._machine.settings.get_setting_value(item)
@@ -658,8 +663,25 @@ class BasePlaceholderManager(MpfController):
         if hasattr(ast, "Constant"):
             self._eval_methods[ast.Constant] = self._eval_constant
 
+    def _eval_operands(self, nodes, variables, subscribe):
+        """Evaluate nodes in order and return their values and all subscriptions.
+
+        When an operand cannot be evaluated the subscriptions of the operands evaluated before it are kept.
+        """
+        values = []
+        subscriptions = []
+        for node in nodes:
+            try:
+                value, subscription = self._eval(node, variables, subscribe)
+            except TemplateEvalError as e:
+                raise TemplateEvalError(subscriptions + e.subscriptions)
+            values.append(value)
+            subscriptions = subscriptions + subscription
+        return values, subscriptions
+
     def _eval_tuple(self, node, variables, subscribe):
-        return tuple([self._eval(x, variables, subscribe) for x in node.elts])
+        values, subscriptions = self._eval_operands(node.elts, variables, subscribe)
+        return tuple(values), subscriptions
 
     @staticmethod
     def _parse_template(template_str):
@@ -688,46 +710,46 @@ class BasePlaceholderManager(MpfController):
 
     def _eval_if(self, node, variables, subscribe):
         value, subscription = self._eval(node.test, variables, subscribe)
-        if value:
-            ret_value, ret_subscription = self._eval(node.body, variables, subscribe)
-            return ret_value, subscription + ret_subscription
-
-        ret_value, ret_subscription = self._eval(node.orelse, variables, subscribe)
+        try:
+            ret_value, ret_subscription = self._eval(node.body if value else node.orelse, variables, subscribe)
+        except TemplateEvalError as e:
+            raise TemplateEvalError(subscription + e.subscriptions)
         return ret_value, subscription + ret_subscription
 
     def _eval_bin_op(self, node, variables, subscribe):
-        left_value, left_subscription = self._eval(node.left, variables, subscribe)
-        right_value, right_subscription = self._eval(node.right, variables, subscribe)
+        (left_value, right_value), subscriptions = self._eval_operands([node.left, node.right], variables, subscribe)
         try:
             ret_value = OPERATORS[type(node.op)](left_value, right_value)
         except TypeError:
-            raise TemplateEvalError(left_subscription + right_subscription)
-        return ret_value, left_subscription + right_subscription
+            raise TemplateEvalError(subscriptions)
+        return ret_value, subscriptions
 
     def _eval_unary_op(self, node, variables, subscribe):
         value, subscription = self._eval(node.operand, variables, subscribe)
-        return OPERATORS[type(node.op)](value), subscription
+        try:
+            return OPERATORS[type(node.op)](value), subscription
+        except TypeError:
+            raise TemplateEvalError(subscription)
 
     def _eval_compare(self, node, variables, subscribe):
         if len(node.ops) > 1:
             raise AssertionError("Only single comparisons are supported.")
-        left_value, left_subscription = self._eval(node.left, variables, subscribe)
-        right_value, right_subscription = self._eval(node.comparators[0], variables, subscribe)
+        (left_value, right_value), subscriptions = self._eval_operands([node.left, node.comparators[0]], variables,
+                                                                       subscribe)
         try:
-            return COMPARISONS[type(node.ops[0])](left_value, right_value), left_subscription + right_subscription
+            return COMPARISONS[type(node.ops[0])](left_value, right_value), subscriptions
         except TypeError:
-            raise TemplateEvalError(left_subscription + right_subscription)
+            raise TemplateEvalError(subscriptions)
 
     def _eval_bool_op(self, node, variables, subscribe):
-        result, subscription = self._eval(node.values[0], variables, subscribe)
-        for i in range(1, len(node.values)):
-            value, new_subscription = self._eval(node.values[i], variables, subscribe)
-            subscription += new_subscription
+        values, subscriptions = self._eval_operands(node.values, variables, subscribe)
+        result = values[0]
+        for value in values[1:]:
             try:
                 result = BOOL_OPERATORS[type(node.op)](result, value)
             except TypeError:
-                raise TemplateEvalError(subscription)
-        return result, subscription
+                raise TemplateEvalError(subscriptions)
+        return result, subscriptions
 
     def _eval_attribute(self, node, variables, subscribe):
         slice_value, subscription = self._eval(node.value, variables, subscribe)
@@ -752,22 +774,24 @@ class BasePlaceholderManager(MpfController):
         return ret_value, subscription + []
 
     def _eval_subscript(self, node, variables, subscribe):
-        value, subscription = self._eval(node.value, variables, subscribe)
-        if isinstance(node.slice, ast.Constant):
-            return value[node.slice.value], subscription
-        if isinstance(node.slice, ast.Index):
-            slice_value, slice_subscript = self._eval(node.slice.value, variables, subscribe)
-            try:
-                return value[slice_value], subscription + slice_subscript
-            except ValueError:
-                raise TemplateEvalError(subscription + slice_subscript)
         if isinstance(node.slice, ast.Slice):
-            lower, lower_subscription = self._eval(node.slice.lower, variables, subscribe)
-            upper, upper_subscription = self._eval(node.slice.upper, variables, subscribe)
-            step, step_subscription = self._eval(node.slice.step, variables, subscribe)
-            return value[lower:upper:step], subscription + lower_subscription + upper_subscription + step_subscription
+            (value, lower, upper, step), subscriptions = self._eval_operands(
+                [node.value, node.slice.lower, node.slice.upper, node.slice.step], variables, subscribe)
+            return value[lower:upper:step], subscriptions
 
-        raise TypeError(type(node.slice))
+        # python < 3.9 wraps the index in ast.Index
+        slice_node = node.slice.value if isinstance(node.slice, ast.Index) else node.slice
+        (value, slice_value), subscriptions = self._eval_operands([node.value, slice_node], variables, subscribe)
+        if subscribe and isinstance(slice_value, str) and hasattr(value, "subscribe_attribute"):
+            # item access on a placeholder is the same as attribute access. subscribe to the item
+            subscriptions = subscriptions + [value.subscribe_attribute(slice_value)]
+        try:
+            return value[slice_value], subscriptions
+        except ValueError:
+            if subscribe:   # pylint: disable-msg=no-else-raise
+                raise TemplateEvalError(subscriptions)
+            else:
+                raise
 
     def _eval_name(self, node, variables, subscribe):
         if node.id in ("true", "false"):
